@@ -290,6 +290,14 @@ pub fn run(ctx: &Ctx) {
         v
     }, check);
 
+    ctx.cold("cold_start_exchange", "a complete honest key exchange (and one with S_B altered) as the first library operations of a fresh process", || {
+        let n = &r2::params().n;
+        (0..3u64).map(|i| {
+            let sc = |t: u64, m: &BigUint| gen::hex32(&(from_be(&expand_bytes(0xc15d ^ i ^ t << 8, 32)) % m + 1u32));
+            Kex { da: sc(1, &(n - 2u32)), db: sc(2, &(n - 2u32)), id_a: i as usize, id_b: 2 * i as usize, klen: 16 + 7 * i as usize, ra: sc(3, &(n - 1u32)), rb: sc(4, &(n - 1u32)), t_ra: None, t_rb: None, t_sb: if i == 2 { Some(STamper::FlipBit(9)) } else { None }, t_sa: None }
+        }).collect()
+    }, check);
+
     ctx.listed("edge_point_ephemerals", "R_A (resp. R_B) replaced in transit by a boundary point of the curve (x next to 0, n, p, 2^256-p, powers of two, Montgomery limb patterns, y with a leading zero byte), affine and Z = 2: B must accept the valid point and derive exactly the S_B / K_B of GB/T 32918.3 from it; A must report failure", || {
         let n = &r2::params().n;
         let mut v = Vec::new();
